@@ -129,3 +129,48 @@ Example outside_nonvacuous :
   | Throw _ => False
   end.
 Proof. vm_compute. auto. Qed.
+
+(* ===== merged from Properties_DefineCount.v ===== *)
+From PatchV Require Import Proofs_DefineCount.
+
+(* The evaluator alone: the two answers together are no longer than the text lines plus the unguarded text lines
+   (a line at depth 0 is in both answers, a line inside conditionals in at most one). *)
+Theorem cpp_eval_both : forall sym ls o1 o2,
+  cpp_eval sym true ls = Some o1 -> cpp_eval sym false ls = Some o2 ->
+  length o1 + length o2 <= texts sym ls + length (outside sym 0 ls).
+Proof. exact Proofs_DefineCount.cpp_eval_both. Qed.
+Print Assumptions cpp_eval_both.
+
+(* Nothing is written twice: the -D output has at most one text line per original line plus one per added line of the
+   hunks of the patch as the run leaves it (reversed when the run reversed it). *)
+Theorem define_texts_bound : forall o f p r,
+  define_macro o <> [] ->
+  Forall (line_ok (define_macro o)) f ->
+  Forall (fun h => body_ok (define_macro o) (body h)) (hunks p) ->
+  apply_patch o f p = Ok r ->
+  texts (define_macro o) (r_out r) <= length f + adds_h (hunks (r_patch r)).
+Proof. exact Proofs_DefineCount.define_texts_bound. Qed.
+Print Assumptions define_texts_bound.
+
+(* "Lines common to both versions appear once outside any conditional": of the new content (the same run without -D)
+   all lines but the patch's added ones stand outside every conditional - at least |new| - |added| unguarded lines;
+   outside_lines_common above says that every unguarded line is, in order, a line of both versions. *)
+Theorem common_lines_unguarded : forall o f p r,
+  define_macro o <> [] ->
+  Forall (line_ok (define_macro o)) f ->
+  Forall (fun h => body_ok (define_macro o) (body h)) (hunks p) ->
+  apply_patch o f p = Ok r ->
+  exists r', apply_patch (no_define o) f p = Ok r' /\
+             length (r_out r') <= length (outside (define_macro o) 0 (r_out r)) + adds_h (hunks (r_patch r)).
+Proof. exact Proofs_DefineCount.common_lines_unguarded. Qed.
+Print Assumptions common_lines_unguarded.
+
+(* the bound is tight on the example: 3 new lines = 1 unguarded + 2 added; 5 text lines = 3 original + 2 added *)
+Example count_nonvacuous :
+  let A := [ex_l "a"; ex_l "b"; ex_l "c"] in
+  let p := mkPatch FUnified OpChange [] [] (bs "f") (bs "f") [] [] 0 0 [ex_h] in
+  match apply_patch ex_o A p with
+  | Ok r => texts (bs "SYM") (r_out r) = 5 /\ adds_h (hunks (r_patch r)) = 2 /\ length (outside (bs "SYM") 0 (r_out r)) = 1
+  | Throw _ => False
+  end.
+Proof. vm_compute. auto. Qed.
